@@ -1,17 +1,17 @@
 SPECIFICATION Spec
 CHECK_DEADLOCK FALSE
 VIEW view
-INVARIANTS C03
+INVARIANTS C03weak
 CONSTANTS
-  Streams <- StreamsAB
-  Script <- ScriptRAB
+  Streams <- Streams2H
+  Script <- Script2H
   Floor = 0
   AtomicSend = TRUE
   TickFix = TRUE
   SwallowAllowed = TRUE
-  Seek <- SeekAB
-  CollOf <- CollOf3
+  Seek <- Seek2H
+  CollOf <- CollOf2H
   JoinLifts = TRUE
-  StartAllFirst = TRUE
-  PChanOf <- PChanSame
+  StartAllFirst = FALSE
+  PChanOf <- PChan2H
   InitRaises = TRUE
